@@ -284,7 +284,7 @@ fn judge_float_result(ctx: &mut Ctx, case: &Case, t: &Dec, g: f64) {
             } else {
                 ctx.check(within_rel(t, g), "to-float/relative-error", case, || format!("to_f64 of {} = {:e} (bits {:016x}) has relative error above 2^-48 or the wrong sign", t.tok(), g, g.to_bits()))
             };
-            if ctx.want_event() && t.s.abs() < 1200 {
+            if ctx.want_event() && t.s.unsigned_abs() < 1200 {
                 ctx.log("to_f64", &[t.tok()], serde_json::json!({}), format!("{:016x}", g.to_bits()), held);
             }
         }
@@ -469,7 +469,7 @@ pub fn check_case(case: &Case, ctx: &mut Ctx) {
             ctx.begin_case(case);
             judge_to_f64(ctx, case, &t);
             ctx.end_case(case.hash(), !t.n.is_zero());
-            if ctx.want_sample() && !t.n.is_zero() && t.s.abs() < 400 {
+            if ctx.want_sample() && !t.n.is_zero() && t.s.unsigned_abs() < 400 {
                 ctx.sample(case, format!("to_f64 = {:?}, within 2^-48 relative (exact rational check)", t.bd().to_f64()));
             }
         }
